@@ -172,6 +172,24 @@ fn utf16_32_yaml_in_tiny_reads_equals_slice() {
 	assert!(bad.is_empty(), "{} violations, first: {:?}", bad.len(), &bad[..bad.len().min(3)]);
 }
 
+/// Detection never fails for a reason other than an I/O error of the source: text that looks like
+/// UTF-16/32 YAML but ends inside a code unit or on a lone surrogate is simply "not detected".
+#[test]
+fn truncated_utf16_32_input_is_undetected_not_an_error() {
+	let inputs: [&[u8]; 6] = [b"[\0a\0]", b"\0{\0a\0", b"-\0 \0\x3d\xd8", b"\xfe\xff\0a\0:\0", b"a\0\0\0:\0\0\0 \0", b"\0\0\0a\0\0\0:\0\0\0"];
+	let mut bad = vec![];
+	for input in inputs {
+		let a = xt::translate_slice(input, None, Format::Json, io::sink()).map_err(|e| e.to_string());
+		let b = xt::translate_reader(input, None, Format::Json, io::sink()).map_err(|e| e.to_string());
+		for (how, r) in [("slice", a), ("reader", b)] {
+			if r != Err("unable to detect input format".to_string()) {
+				bad.push(format!("{input:02x?} from a {how}: {r:?}"));
+			}
+		}
+	}
+	assert!(bad.is_empty(), "{} violations, first: {:?}", bad.len(), &bad[..bad.len().min(3)]);
+}
+
 #[test]
 fn syntax_error_at_every_position_keeps_the_parser_message() {
 	let mut bad = vec![];
